@@ -56,6 +56,18 @@ Theorem C17_contextual_cascade : forall vs p n, nodup_keys vs = true ->
 Proof. exact contextual_cascade. Qed.
 Print Assumptions C17_contextual_cascade.
 
+(* the loops REGENERATED from contextual.py and class_detour.py compute exactly these rules *)
+Theorem C17_contextual_generated_is_cascade : forall vs l p, tl_get k_contextual v_empty_dict l = VD p ->
+  contextual_scope_enter (VD vs) l =
+  Some (tl_set k_contextual (VD (contextual_merge p vs)) l, [VD p; VD (contextual_merge p vs)]).
+Proof. exact contextual_scope_enter_dict. Qed.
+Print Assumptions C17_contextual_generated_is_cascade.
+
+Theorem C17_detour_generated_is_rule : forall a l c, current_mappings l = VD c ->
+  exists nw, detour_scope_enter a l = Some (tl_push k_detour (VD (detour_spec c a)) l, [VD (detour_spec c a); nw]).
+Proof. exact detour_scope_enter_typed. Qed.
+Print Assumptions C17_detour_generated_is_rule.
+
 Theorem C17_detour_outer_wins : forall cur ms k, dict_has k cur = true ->
   dict_get k (dict_update cur (filter_map (detour_resolve cur) ms)) = dict_get k cur.
 Proof. exact detour_outer_wins. Qed.
